@@ -470,7 +470,7 @@ def check (pid : String) (j : Json) : Except String Verdict := do
           | _ => pure ()
       if pid = "C19" && (lookupC prev rt "").isNone then r := r.specFail (c01 cfg r.rops uni o)
       if pid = "C01" then r := r.specFail (c01 cfg r.rops uni o)
-      if pid = "C02" then r := r.specFail (c02 prev o (some rt) v nonce resp.decodes sendOk)
+      if pid = "C02" then r := r.specFail (c02 prev o (some rt) v nonce resp.decodes sendOk (r.s.watched rt).isSome)
       if pid = "C03" then r := r.specFail (c03change prev o none)
     | "recvfail" =>
       r := r.op cfg .reconnectDrain what
